@@ -8,10 +8,22 @@ package main
 // main does (transport.SetConfig, then tables and proxies). Upstreams delay
 // their response headers relative to the configured timeout, black-hole the
 // dial, or answer and stay idle; the simulated clock gives exact timings.
+//
+// Exchanges that are not plain request -> response are part of the scenario
+// space: interim (1xx) responses before the final header (at once, while the
+// request body is still on its way, or part of the way to the final header),
+// uploads with Content-Length or chunked and "Expect: 100-continue", replies
+// with trailers, and protocol upgrades through the reverse proxy (101). The
+// limit always runs to the FINAL response header.
 
 import (
+	"bufio"
+	"bytes"
 	"crypto/tls"
 	"fmt"
+	"io"
+	"net"
+	"net/http"
 	"strings"
 	"time"
 
@@ -35,7 +47,36 @@ type c19Exchange struct {
 	SlowBody bool `json:"slow_body,omitempty"`
 	Upload   int  `json:"upload_bytes,omitempty"`
 	Expect   bool `json:"expect_100_continue,omitempty"`
+	// ChunkedUpload: the request body travels with Transfer-Encoding: chunked instead of a Content-Length
+	ChunkedUpload bool `json:"chunked_upload,omitempty"`
+	// Interim: 1xx responses the upstream sends before its final header (which still comes at Delay, or never)
+	Interim []c19Interim `json:"interim_responses,omitempty"`
+	// Trailers (with SlowBody): the reply is chunked and announces a trailer, which follows the last piece after one more pause
+	Trailers bool `json:"reply_with_trailers,omitempty"`
+	// Upgrade: the request asks for a protocol switch (not websocket: it goes through the reverse proxy and the
+	// transport); the upstream's final answer is "101 Switching Protocols", after which it echoes what it receives
+	// the client keeps the tunnel for dial timeout + response-header timeout and exchanges data over it twice
+	Upgrade bool `json:"protocol_upgrade,omitempty"`
+	// WS (with Upgrade): the protocol asked for is websocket, which fabio forwards with its websocket handler (own
+	// dial, no http.Transport). Plain-http targets only; the upstream accepts at once or its dial is black-holed.
+	WS bool `json:"websocket,omitempty"`
+	// SlowUpload: the client sends its request body in two pieces with a pause of (dial timeout + response-header
+	// timeout)/2 before each, after waiting for "100 Continue" when it asked for it: the upstream has the request
+	// only then, and its Delay counts from there
+	SlowUpload bool `json:"slow_upload,omitempty"`
 }
+
+// c19Interim is one interim response of an upstream.
+type c19Interim struct {
+	Code    int  `json:"code"` // 100, 102, 103
+	Headers bool `json:"with_headers,omitempty"`
+	// AtHead: sent as soon as the request head has been read, before the request body (uploads only)
+	AtHead bool `json:"before_reading_the_request_body,omitempty"`
+	// At: sent this long after the request has been received completely (0: at once); always well before the final header
+	At time.Duration `json:"at,omitempty"`
+}
+
+const c19UpgradeProto = "c19-tunnel"
 
 type c19Scenario struct {
 	ResponseHeaderTimeout time.Duration `json:"response_header_timeout"`
@@ -86,6 +127,55 @@ func runC19(r *simcore.Run) {
 				ex.Body = 8
 			}
 		}
+		if ex.Route != "blackhole" {
+			if ex.Upload > 0 && g.Chance(30) {
+				ex.ChunkedUpload = true
+			}
+			if ex.Upload > 1 && g.Chance(30) {
+				ex.SlowUpload = true
+			}
+			if ex.SlowBody && g.Chance(35) {
+				ex.Trailers = true
+			}
+			if ex.Upload == 0 && !ex.SlowBody && g.Chance(12) {
+				ex.Upgrade = true
+			}
+			if ex.Upgrade && ex.Route == "default" && g.Chance(40) {
+				// the websocket handler has its own, fixed limit for the handshake reply (see the assumptions):
+				// only an upstream that accepts at once is in the scenario space
+				ex.WS, ex.Delay, ex.Hang = true, 0, false
+			}
+			if !ex.WS && g.Chance(45) {
+				// one or two interim responses; the final header still comes at Delay (or never). Every interim
+				// response lies in the first half of the way to min(Delay, T): never near the instant the timeout fires
+				base := T
+				if !ex.Hang && ex.Delay < T {
+					base = ex.Delay
+				}
+				n := 1 + g.Intn(2)
+				var prev time.Duration
+				for k := 0; k < n; k++ {
+					in := c19Interim{Code: simcore.Pick(g, []int{103, 100, 102}), Headers: g.Chance(50)}
+					switch g.Intn(4) {
+					case 0, 1: // at once (after the previous one)
+						in.At = prev
+					case 2:
+						in.At = base * time.Duration(k+1) / 4
+					case 3:
+						if k == 0 && ex.Upload > 0 {
+							in.AtHead = true
+						} else {
+							in.At = prev
+						}
+					}
+					prev = in.At
+					ex.Interim = append(ex.Interim, in)
+				}
+			}
+		}
+		if ex.Route == "blackhole" && ex.Upload == 0 && g.Chance(25) {
+			ex.Upgrade, ex.WS = true, true
+		}
 		sc.Exchanges = append(sc.Exchanges, ex)
 	}
 	if g.Chance(40) {
@@ -115,10 +205,11 @@ func runC19(r *simcore.Run) {
 	defer e.finish()
 	e.serve(nil)
 	upTLS := &tls.Config{Certificates: []tls.Certificate{zzSelfSigned()}}
-	e.upstream(c19Keys["default"], simnet.ListenOpts{}, nil)
-	e.upstream(c19Keys["skipverify"], simnet.ListenOpts{}, upTLS)
-	e.upstream(c19Keys["perroute"], simnet.ListenOpts{}, upTLS)
-	e.upstream(c19Keys["burst"], simnet.ListenOpts{}, nil)
+	scripts := map[string]*c19Exchange{} // by request id; complete before the first client starts
+	c19Upstream(e, c19Keys["default"], nil, scripts)
+	c19Upstream(e, c19Keys["skipverify"], upTLS, scripts)
+	c19Upstream(e, c19Keys["perroute"], upTLS, scripts)
+	c19Upstream(e, c19Keys["burst"], nil, scripts)
 	e.net.Blackhole(c19Keys["blackhole"], true)
 
 	// sequential exchanges, one client connection each
@@ -135,13 +226,34 @@ func runC19(r *simcore.Run) {
 		if ex.Upload > 0 {
 			rq.Method = "POST"
 			rq.Body = g.Bytes(ex.Upload)
+			rq.Chunked = ex.ChunkedUpload
 			if ex.Expect {
 				rq.Headers = append(rq.Headers, h2Header{"Expect", "100-continue"})
 			}
 		}
-		cl := &h2Client{Addr: fmt.Sprintf("192.0.2.%d:5000", 10+i), Reqs: []h2Req{rq}}
-		e.client(cl)
-		reqs = append(reqs, &cl.Reqs[0])
+		if ex.Upgrade {
+			if ex.WS {
+				rq.Headers = append(rq.Headers, h2Header{"Connection", "Upgrade"}, h2Header{"Upgrade", "websocket"},
+					h2Header{"Sec-WebSocket-Key", "dGhlIHNhbXBsZSBub25jZQ=="}, h2Header{"Sec-WebSocket-Version", "13"})
+			} else {
+				rq.Headers = append(rq.Headers, h2Header{"Connection", "Upgrade"}, h2Header{"Upgrade", c19UpgradeProto})
+			}
+			// what the upstream echoes through the tunnel
+			rq.Resp.Status, rq.Resp.Body = 101, []byte(c19TunnelLine(rq.ID, 1)+c19TunnelLine(rq.ID, 2))
+		}
+		exc := ex
+		e.mu.Lock()
+		scripts[rq.ID] = &exc
+		e.mu.Unlock()
+		if ex.Upgrade || ex.SlowUpload {
+			rqc := rq
+			c19Client(e, fmt.Sprintf("192.0.2.%d:5000", 10+i), &rqc, &exc, (sc.DialTimeout+sc.ResponseHeaderTimeout)/2)
+			reqs = append(reqs, &rqc)
+		} else {
+			cl := &h2Client{Addr: fmt.Sprintf("192.0.2.%d:5000", 10+i), Reqs: []h2Req{rq}}
+			e.client(cl)
+			reqs = append(reqs, &cl.Reqs[0])
+		}
 		// the response-header timer of the transport starts when the request has been written;
 		// tell the idle driver about the configured instants
 		if ex.Route == "blackhole" {
@@ -150,17 +262,49 @@ func runC19(r *simcore.Run) {
 	}
 	// hints for the response-header timeout are added when the upstream records the request
 	e.onSeen = func(s *h2Seen) { e.d.Hint(s.At.Add(T)) }
-	if !e.run(20000, 20*time.Minute) {
-		r.Trouble("clients did not finish: %v", e.d.Sim.TaskStates())
+	// the horizon lies far beyond every configured limit (at most 2m + 30s) and scripted delay (at most 6m): a client
+	// that is still waiting then is held without limit
+	const horizon = 20 * time.Minute
+	finished := e.run(20000, horizon)
+	if !finished && r.SimElapsed() <= horizon {
+		r.Trouble("clients did not finish within the step budget: %v", e.d.Sim.TaskStates())
 		return
 	}
 	for i, ex := range sc.Exchanges {
+		e.mu.Lock()
 		res := e.results[reqs[i].ID]
 		seen := e.seen[reqs[i].ID]
-		r.Tracef("exchange %d %s delay=%s hang=%v -> status=%d err=%v elapsed=%s", i, ex.Route, ex.Delay, ex.Hang, res.Status, res.Err, res.DoneAt.Sub(res.SentAt))
+		e.mu.Unlock()
+		if res == nil {
+			res = &h2Result{}
+		}
+		if res.Err == nil && res.DoneAt.IsZero() {
+			// no answer and no end of the connection up to the horizon
+			r.Nontrivial()
+			r.Tracef("exchange %d %s delay=%s hang=%v interim=%d upgrade=%v -> client still waiting after %s", i, ex.Route, ex.Delay, ex.Hang, len(ex.Interim), ex.Upgrade, r.SimElapsed())
+			switch {
+			case ex.Route == "blackhole":
+				r.Fail("dial-timeout", "never-released", "upstream dial black-holed, dial timeout %s: the client is still waiting after %s", sc.DialTimeout, r.SimElapsed())
+			case ex.Hang || ex.Delay > T:
+				r.Fail("timeout", ex.Route+"/never-released", "upstream (%s) without a final response header (delay %s hang %v, interim responses sent: %d), response-header timeout %s: the client is still waiting after %s", ex.Route, ex.Delay, ex.Hang, len(ex.Interim), T, r.SimElapsed())
+			default:
+				r.Fail("timeout", ex.Route+"/in-time-not-served", "upstream (%s) answered after %s < timeout %s but the client is still waiting after %s", ex.Route, ex.Delay, T, r.SimElapsed())
+			}
+			continue
+		}
+		r.Tracef("exchange %d %s delay=%s hang=%v interim=%d upgrade=%v -> status=%d err=%v elapsed=%s", i, ex.Route, ex.Delay, ex.Hang, len(ex.Interim), ex.Upgrade, res.Status, res.Err, res.DoneAt.Sub(res.SentAt))
 		if ex.Route == "blackhole" {
 			r.Nontrivial()
 			r.Probe("dial_blackholed")
+			if ex.WS {
+				// the websocket handler has taken the connection over before it dials: how it reports the failure
+				// is not judged, only that the configured dial timeout releases the client
+				r.Probe("websocket_dial_blackholed")
+				if el := res.DoneAt.Sub(res.SentAt); el > sc.DialTimeout {
+					r.Fail("dial-timeout", "late", "websocket upstream dial black-holed: client released after %s (status=%d err=%v), configured dial timeout %s", el, res.Status, res.Err, sc.DialTimeout)
+				}
+				continue
+			}
 			if res.Err != nil || (res.Status != 504 && res.Status != 502) {
 				r.Fail("dial-timeout", "no-gateway-error", "upstream dial black-holed, dial timeout %s: client got status=%d err=%v", sc.DialTimeout, res.Status, res.Err)
 			} else if el := res.DoneAt.Sub(res.SentAt); el > sc.DialTimeout {
@@ -176,8 +320,12 @@ func runC19(r *simcore.Run) {
 		if late {
 			r.Nontrivial()
 			r.Probe("upstream_slower_than_timeout")
+			if len(ex.Interim) > 0 {
+				// an interim response is not the answer: the limit runs to the final response header
+				r.Probe("interim_then_slower_than_timeout")
+			}
 			if res.Err != nil || res.Status != 504 {
-				r.Fail("timeout", ex.Route+"/no-504", "upstream (%s) silent for longer than response-header timeout %s (delay %s hang %v): client got status=%d err=%v after %s", ex.Route, T, ex.Delay, ex.Hang, res.Status, res.Err, res.DoneAt.Sub(seen[0].At))
+				r.Fail("timeout", ex.Route+"/no-504", "upstream (%s) without a final response header for longer than response-header timeout %s (delay %s hang %v, interim responses sent: %d): client got status=%d err=%v after %s", ex.Route, T, ex.Delay, ex.Hang, len(ex.Interim), res.Status, res.Err, res.DoneAt.Sub(seen[0].At))
 			} else if el := res.DoneAt.Sub(seen[0].At); el > T {
 				r.Fail("timeout", ex.Route+"/late-504", "504 arrived %s after the upstream received the request, configured timeout %s", el, T)
 			} else if el := res.DoneAt.Sub(res.SentAt); el > T {
@@ -186,8 +334,19 @@ func runC19(r *simcore.Run) {
 			}
 		} else {
 			r.Probe("upstream_in_time")
-			if res.Err != nil || res.Status != 200 || string(res.Body) != string(reqs[i].Resp.Body) {
-				r.Fail("timeout", ex.Route+"/in-time-not-served", "upstream (%s) answered after %s < timeout %s but the client got status=%d err=%v body=%d/%d", ex.Route, ex.Delay, T, res.Status, res.Err, len(res.Body), len(reqs[i].Resp.Body))
+			if len(ex.Interim) > 0 {
+				r.Probe("interim_then_in_time")
+			}
+			if ex.Upgrade {
+				r.Probe("upgrade_in_time")
+			}
+			if ex.SlowUpload {
+				r.Probe("slow_upload_in_time")
+			}
+			if ex.Upgrade && res.Err == nil && res.Status == 101 && (res.BodyErr != nil || string(res.Body) != string(reqs[i].Resp.Body)) {
+				r.Fail("timeout", ex.Route+"/tunnel-cut", "upstream (%s) switched protocols after %s < timeout %s, but the tunnel did not carry the data exchanged during the next %s: echoed %q of %q, err=%v", ex.Route, ex.Delay, T, sc.DialTimeout+T, res.Body, reqs[i].Resp.Body, res.BodyErr)
+			} else if res.Err != nil || res.BodyErr != nil || res.Status != reqs[i].Resp.Status || string(res.Body) != string(reqs[i].Resp.Body) {
+				r.Fail("timeout", ex.Route+"/in-time-not-served", "upstream (%s) answered %d after %s < timeout %s (interim responses first: %d) but the client got status=%d err=%v body=%d/%d body-err=%v", ex.Route, reqs[i].Resp.Status, ex.Delay, T, len(ex.Interim), res.Status, res.Err, len(res.Body), len(reqs[i].Resp.Body), res.BodyErr)
 			}
 		}
 	}
@@ -199,6 +358,10 @@ func runC19(r *simcore.Run) {
 		if dr.KeepAlive != sc.KeepAliveTimeout {
 			r.Fail("dial-params", "keepalive", "dial to %s used keep-alive %s, configured %s", dr.Key, dr.KeepAlive, sc.KeepAliveTimeout)
 		}
+	}
+
+	if !finished {
+		return
 	}
 
 	// burst: more concurrent requests than MaxConn to one upstream, then count idle connections
@@ -251,4 +414,310 @@ func runC19(r *simcore.Run) {
 		}
 	}
 	r.Probe("idle_timeout_checked")
+}
+
+// c19Upstream starts a raw recording upstream under key which plays, per request id, the reply of the h2 script
+// (status, headers, body, delay, never, pieces with pauses) and the extras of the C19 exchange: interim responses,
+// trailers, protocol switch.
+func c19Upstream(e *h2Env, key string, tlscfg *tls.Config, scripts map[string]*c19Exchange) {
+	ln, err := e.net.Listen(key, simnet.ListenOpts{})
+	if err != nil {
+		e.r.Trouble("listen %s: %v", key, err)
+		e.r.Abort()
+	}
+	go func() {
+		for {
+			raw, err := ln.Accept()
+			if err != nil {
+				return
+			}
+			var c net.Conn = raw
+			if tlscfg != nil {
+				c = tls.Server(raw, tlscfg)
+			}
+			go c19ServeUpstream(e, key, c, scripts)
+		}
+	}()
+}
+
+func c19RenderInterim(in c19Interim, n int) string {
+	var b strings.Builder
+	fmt.Fprintf(&b, "HTTP/1.1 %d %s\r\n", in.Code, http.StatusText(in.Code))
+	if in.Headers {
+		if in.Code == 103 {
+			fmt.Fprintf(&b, "Link: </style%d.css>; rel=preload\r\n", n)
+		}
+		fmt.Fprintf(&b, "X-C19-Interim: %d\r\n", n)
+	}
+	b.WriteString("\r\n")
+	return b.String()
+}
+
+func c19ServeUpstream(e *h2Env, key string, c net.Conn, scripts map[string]*c19Exchange) {
+	defer c.Close()
+	br := bufio.NewReader(c)
+	// sleep lets d of simulated time pass (false: the run is over)
+	sleep := func(d time.Duration) bool {
+		if d <= 0 {
+			return true
+		}
+		e.d.Hint(time.Now().Add(d))
+		select {
+		case <-time.After(d):
+			return true
+		case <-e.stop:
+			return false
+		}
+	}
+	for {
+		req, err := http.ReadRequest(br)
+		if err != nil {
+			return
+		}
+		id := req.Header.Get("X-Sim-Id")
+		e.mu.Lock()
+		sc := e.script[id]
+		ex := scripts[id]
+		onSeen := e.onSeen
+		e.mu.Unlock()
+		if ex == nil {
+			ex = &c19Exchange{}
+		}
+		for n, in := range ex.Interim {
+			if in.AtHead {
+				if _, err := io.WriteString(c, c19RenderInterim(in, n)); err != nil {
+					return
+				}
+			}
+		}
+		body, berr := io.ReadAll(req.Body)
+		s := &h2Seen{Upstream: key, Method: req.Method, RequestURI: req.RequestURI, Proto: req.Proto, Host: req.Host,
+			Header: req.Header.Clone(), Body: body, BodyErr: berr, TE: req.TransferEncoding, CL: req.ContentLength,
+			At: time.Now(), Remote: c.RemoteAddr().String()}
+		e.mu.Lock()
+		e.seen[id] = append(e.seen[id], s)
+		e.mu.Unlock()
+		if onSeen != nil {
+			onSeen(s)
+		}
+		e.r.Tracef("upstream %s got %s %s id=%s body=%d", key, req.Method, req.RequestURI, id, len(body))
+		if sc == nil {
+			io.WriteString(c, "HTTP/1.1 599 unscripted\r\nContent-Length: 0\r\n\r\n")
+			continue
+		}
+		rs := sc.Resp
+		for n, in := range ex.Interim {
+			if in.AtHead {
+				continue
+			}
+			if !sleep(in.At - time.Since(s.At)) {
+				return
+			}
+			if _, err := io.WriteString(c, c19RenderInterim(in, n)); err != nil {
+				return
+			}
+		}
+		if rs.Hang {
+			// no final header ever; wait until the proxy gives up and closes
+			io.Copy(io.Discard, br)
+			return
+		}
+		if !sleep(rs.Delay - time.Since(s.At)) {
+			return
+		}
+		if ex.Upgrade {
+			if _, err := fmt.Fprintf(c, "HTTP/1.1 101 Switching Protocols\r\nConnection: Upgrade\r\nUpgrade: %s\r\n\r\n", req.Header.Get("Upgrade")); err != nil {
+				return
+			}
+			io.Copy(c, br) // the new protocol: echo until the proxy ends the tunnel
+			return
+		}
+		// the reply as a head and pieces, with a pause before each piece
+		var head []byte
+		var pieces [][]byte
+		if ex.Trailers {
+			var b bytes.Buffer
+			fmt.Fprintf(&b, "HTTP/1.1 %d %s\r\n", rs.Status, http.StatusText(rs.Status))
+			for _, h := range rs.Headers {
+				fmt.Fprintf(&b, "%s: %s\r\n", h.K, h.V)
+			}
+			b.WriteString("Trailer: X-C19-Length\r\nTransfer-Encoding: chunked\r\n\r\n")
+			head = append(head, b.Bytes()...)
+			rest := rs.Body
+			np := len(rs.Chunks)
+			if np == 0 {
+				np = 1
+			}
+			for i := 0; i < np && len(rest) > 0; i++ {
+				n := len(rest) / (np - i)
+				if i == np-1 || n == 0 {
+					n = len(rest)
+				}
+				pieces = append(pieces, []byte(fmt.Sprintf("%x\r\n%s\r\n", n, rest[:n])))
+				rest = rest[n:]
+			}
+			pieces = append(pieces, []byte(fmt.Sprintf("0\r\nX-C19-Length: %d\r\n\r\n", len(rs.Body))))
+		} else {
+			raw := h2RenderResponse(req.Method, &rs)
+			if rs.BodyPause > 0 {
+				hl := bytes.Index(raw, []byte("\r\n\r\n")) + 4
+				head = raw[:hl]
+				rest := raw[hl:]
+				np := len(rs.Chunks)
+				if np == 0 {
+					np = 1
+				}
+				for i := 0; i < np; i++ {
+					n := len(rest) / (np - i)
+					if i == np-1 {
+						n = len(rest)
+					}
+					pieces = append(pieces, rest[:n])
+					rest = rest[n:]
+				}
+			} else {
+				head = raw
+			}
+		}
+		if _, err := c.Write(head); err != nil {
+			return
+		}
+		for _, p := range pieces {
+			if !sleep(rs.BodyPause) {
+				return
+			}
+			if _, err := c.Write(p); err != nil {
+				return
+			}
+		}
+	}
+}
+
+func c19TunnelLine(id string, n int) string { return fmt.Sprintf("data %d of %s\n", n, id) }
+
+// c19Client is a raw client for the exchanges the h2 client cannot play: it sends the request body in pieces with
+// pauses (after waiting for the interim "100 Continue" when the request asks for one) and, after a protocol
+// switch, keeps the tunnel and exchanges data over it. h2Result.SentAt is the instant the request was written
+// completely; for a tunnel Body is what came back through it.
+func c19Client(e *h2Env, addr string, rq *h2Req, ex *c19Exchange, pause time.Duration) {
+	res := &h2Result{}
+	e.mu.Lock()
+	e.clients++
+	e.script[rq.ID] = rq
+	e.results[rq.ID] = res
+	e.mu.Unlock()
+	sleep := func(d time.Duration) bool {
+		e.d.Hint(time.Now().Add(d))
+		select {
+		case <-time.After(d):
+			return true
+		case <-e.stop:
+			return false
+		}
+	}
+	go func() {
+		defer func() {
+			if res.DoneAt.IsZero() && res.Err != nil {
+				// released without a complete answer (connection closed)
+				select {
+				case <-e.stop: // torn down while still waiting
+				default:
+					res.DoneAt = time.Now()
+					e.r.Tracef("client %s id=%s released without an answer: %v", addr, rq.ID, res.Err)
+				}
+			}
+			e.mu.Lock()
+			e.done++
+			e.mu.Unlock()
+		}()
+		c, err := e.net.Dial(e.r.Ctx(), e.netAddr(addr), h2FabioAddr, 0)
+		if err != nil {
+			res.Err = err
+			return
+		}
+		defer c.Close()
+		br := bufio.NewReader(c)
+		raw := h2RenderRequest(rq)
+		hl := bytes.Index(raw, []byte("\r\n\r\n")) + 4
+		res.SentAt = time.Now()
+		e.r.Tracef("client %s sends %s %s id=%s", addr, rq.Method, rq.Path, rq.ID)
+		if _, err := c.Write(raw[:hl]); err != nil {
+			res.Err = err
+			return
+		}
+		var resp *http.Response
+		if rest := raw[hl:]; ex.SlowUpload && len(rest) > 0 {
+			if ex.Expect {
+				// a client that means its Expect header waits for the go-ahead (or for a final answer)
+				for {
+					resp, err = http.ReadResponse(br, &http.Request{Method: rq.Method})
+					if err != nil {
+						res.Err = err
+						return
+					}
+					if resp.StatusCode < 100 || resp.StatusCode >= 200 || resp.StatusCode == 101 {
+						break // a final answer instead of the go-ahead: the body is not sent
+					}
+					res.Interim = append(res.Interim, resp.StatusCode)
+					if resp.StatusCode == 100 {
+						resp = nil
+						break
+					}
+				}
+			}
+			for i := 0; i < 2 && resp == nil; i++ {
+				if !sleep(pause) {
+					return
+				}
+				n := len(rest) / (2 - i)
+				if _, err := c.Write(rest[:n]); err != nil {
+					res.Err = err
+					return
+				}
+				rest = rest[n:]
+			}
+			res.SentAt = time.Now()
+		} else if _, err := c.Write(rest); err != nil {
+			res.Err = err
+			return
+		}
+		for resp == nil || (resp.StatusCode >= 100 && resp.StatusCode < 200 && resp.StatusCode != 101) {
+			if resp != nil {
+				res.Interim = append(res.Interim, resp.StatusCode)
+			}
+			resp, err = http.ReadResponse(br, &http.Request{Method: rq.Method})
+			if err != nil {
+				res.Err = err
+				return
+			}
+		}
+		res.HeaderAt = time.Now()
+		res.Status, res.Proto, res.Header = resp.StatusCode, resp.Proto, resp.Header.Clone()
+		res.TE, res.CL = resp.TransferEncoding, resp.ContentLength
+		if ex.Upgrade && resp.StatusCode == 101 {
+			e.r.Tracef("client %s got %d id=%s", addr, res.Status, rq.ID)
+			for n := 1; n <= 2; n++ {
+				if !sleep(pause) {
+					return
+				}
+				line := c19TunnelLine(rq.ID, n)
+				if _, err := io.WriteString(c, line); err != nil {
+					res.BodyErr = err
+					break
+				}
+				back, err := br.ReadString('\n')
+				res.Body = append(res.Body, back...)
+				if err != nil {
+					res.BodyErr = err
+					break
+				}
+			}
+			res.DoneAt = time.Now()
+			e.r.Tracef("client %s leaves the tunnel id=%s echoed=%d err=%v", addr, rq.ID, len(res.Body), res.BodyErr)
+			return
+		}
+		res.Body, res.BodyErr = io.ReadAll(resp.Body)
+		res.DoneAt = time.Now()
+		e.r.Tracef("client %s got %d id=%s body=%d err=%v", addr, res.Status, rq.ID, len(res.Body), res.BodyErr)
+	}()
 }
